@@ -87,20 +87,22 @@ Target(fs, c) ==
 (* the observation pipeline, and by Kismet.tla to decide each call's result.*)
 (***************************************************************************)
 MissingDirRes == {"ENOENT", "ENOTDIR"}
+\* paths the tracer could only resolve lexically ("..", ".", empty components) are not predicted
+Lexical(pth) == Has(pth, "lex")
 PathPred(fs, pth, present, absent) ==
-    IF Outside(pth) THEN {"ANY"}
-    ELSE IF Len(pth.n) > 255 THEN {"ENAMETOOLONG"}
+    IF Outside(pth) \/ Lexical(pth) THEN {"ANY"}
     ELSE IF ~DirExists(fs, DirOf(pth)) THEN MissingDirRes
+    ELSE IF Len(pth.n) > 255 THEN {"ENAMETOOLONG", "ENOENT"}
     ELSE IF Lookup(fs, pth) = "NONE" THEN absent ELSE present
 
 Pred(fs, c, privileged) ==
     IF Has(c, "inj") THEN {"ANY"}
     ELSE IF c.call = "open" THEN
         LET fl == FlagSet(c) tgt == Lookup(fs, c.path) IN
-        IF Outside(c.path) THEN {"ANY"}
+        IF Outside(c.path) \/ Lexical(c.path) THEN {"ANY"}
         ELSE IF "TMPFILE" \in fl THEN (IF tgt = "DIR" THEN {"ok"} ELSE MissingDirRes)
-        ELSE IF Len(c.path.n) > 255 THEN {"ENAMETOOLONG"}
         ELSE IF ~DirExists(fs, DirOf(c.path)) THEN MissingDirRes
+        ELSE IF Len(c.path.n) > 127 /\ tgt = "NONE" THEN {"ENAMETOOLONG", "ENOENT", "ok"}   \* byte length unknown (non-ASCII)
         ELSE IF tgt = "NONE" THEN (IF "CREAT" \in fl THEN {"ok"} ELSE {"ENOENT"})
         ELSE IF "CREAT" \in fl /\ "EXCL" \in fl THEN {"EEXIST"}
         ELSE IF tgt = "DIR" THEN (IF "WRONLY" \in fl \/ "RDWR" \in fl THEN {"EISDIR"} ELSE {"ok"})
@@ -110,12 +112,12 @@ Pred(fs, c, privileged) ==
         ELSE IF ~privileged /\ ("RDONLY" \in fl \/ "RDWR" \in fl) /\ ~OwnerR(fs.inos[tgt].mode) THEN {"EACCES"}
         ELSE {"ok"}
     ELSE IF c.call = "link" THEN
-        IF Outside(c.path) \/ Outside(c.path2) THEN {"ANY"}
+        IF Outside(c.path) \/ Outside(c.path2) \/ Lexical(c.path) \/ Lexical(c.path2) THEN {"ANY"}
         ELSE IF ~DirExists(fs, DirOf(c.path)) \/ Lookup(fs, c.path) = "NONE" THEN MissingDirRes
         ELSE IF Lookup(fs, c.path) = "DIR" THEN {"EPERM"}
         ELSE PathPred(fs, c.path2, {"EEXIST"}, {"ok"})
     ELSE IF c.call = "rename" THEN
-        IF Outside(c.path) \/ Outside(c.path2) THEN {"ANY"}
+        IF Outside(c.path) \/ Outside(c.path2) \/ Lexical(c.path) \/ Lexical(c.path2) THEN {"ANY"}
         ELSE IF ~DirExists(fs, DirOf(c.path)) \/ Lookup(fs, c.path) = "NONE" THEN MissingDirRes
         ELSE IF Lookup(fs, c.path) = "DIR" \/ Lookup(fs, c.path2) = "DIR" THEN {"ANY"}
         ELSE PathPred(fs, c.path2, {"ok"}, {"ok"})
